@@ -90,10 +90,10 @@ type c06Ret struct {
 func (r c06Ret) String() string { return fmt.Sprintf("%s %s %d", r.kind, r.cls, r.size) }
 
 type c06Result struct {
-	events  []event
-	fresh   []bool
-	returns []c06Ret
-	acks    []byte
+	events                []event
+	fresh                 []bool
+	returns               []c06Ret
+	acks                  []byte
 	nTimeout, nNoProgress int
 	dials                 int
 }
@@ -412,11 +412,11 @@ func c06Term(sc *c06Scenario, res *c06Result) string {
 // stream generation
 
 type c06Stream struct {
-	bytes   []byte
-	reqs    []c06Req
-	nBig    int
-	desc    []string
-	bounds  []int // packet boundaries (offsets)
+	bytes  []byte
+	reqs   []c06Req
+	nBig   int
+	desc   []string
+	bounds []int // packet boundaries (offsets)
 }
 
 func c06Topic(r *rng, n int) string {
